@@ -6,7 +6,8 @@
 From Coq Require Import ZArith List Bool String.
 From Verif Require Import EmitState.EmitStateModel EmitState.EmitStateProofs EmitState.LookupModel EmitState.LookupProofs.
 From Verif Require Import EmitState.EncPathModel EmitState.EncPathProofs Codec.OffsetModel Codec.OffsetProofs.
-From VerifGen Require Import C14Tables C14TableProofs C14MemPathModel C14MemPathProofs.
+From Verif Require Import EmitState.EmitFrameModel EmitState.EmitFrameProofs.
+From VerifGen Require Import C14Tables C14TableProofs C14MemPathModel C14MemPathProofs C14SpecProofs.
 Import ListNotations.
 Local Open Scope Z_scope.
 
@@ -579,3 +580,200 @@ Theorem C14_cdisp8_ok_iff : forall rel cd, 0 <= cd <= 6 -> - 2 ^ 31 <= rel < 2 ^
   cdisp8_ok rel cd = true <-> (-128 * 2 ^ cd <= rel <= 127 * 2 ^ cd /\ rel mod 2 ^ cd = 0).
 Proof. exact cdisp8_ok_iff. Qed.
 Print Assumptions C14_cdisp8_ok_iff.
+
+(* ---------------------------------------------------------------- frame conditions (round 6)
+   WHATEVER happens in a call - success, refusal, an exception out of the handler - no component outside the footprint of its
+   kind changes: every flavour, architecture, handler kind, state, argument and encoder verdict.  The extracted `footprint_of`
+   is printed by the model driver for every call and checked against the snapshots of the REAL emitter. *)
+Theorem C14_call_frame : forall fl a h s c s' o,
+  step fl a h s c = (s', o) ->
+  let fp := footprint_of fl c in
+  (fp_sizes fp = false -> st_sizes s' = st_sizes s) /\
+  (fp_cur fp = false -> st_cur s' = st_cur s) /\
+  (fp_labels fp = false -> st_labels s' = st_labels s) /\
+  (fp_fixups fp = false -> st_fixups s' = st_fixups s) /\
+  (fp_relocs fp = false -> st_relocs s' = st_relocs s) /\
+  (fp_addrs fp = false -> st_addrs s' = st_addrs s) /\
+  (fp_nodes fp = false -> st_nodes s' = st_nodes s).
+Proof. exact call_frame. Qed.
+Print Assumptions C14_call_frame.
+
+(* no call ever touches the size of a section other than the one the emitter is in (new sections are appended behind) *)
+Theorem C14_other_sections_untouched : forall fl a h s c s' o, step fl a h s c = (s', o) -> other_sections_kept s s'.
+Proof. exact other_sections_untouched. Qed.
+Print Assumptions C14_other_sections_untouched.
+
+(* a history of calls whose footprints all exclude a component leaves it as it was, however many calls fail, throw or succeed *)
+Theorem C14_history_frame : forall fl a h cs s s' os,
+  run fl a h s cs = (s', os) ->
+  ((forall c, In c cs -> fp_sizes (footprint_of fl c) = false) -> st_sizes s' = st_sizes s) /\
+  ((forall c, In c cs -> fp_cur (footprint_of fl c) = false) -> st_cur s' = st_cur s) /\
+  ((forall c, In c cs -> fp_labels (footprint_of fl c) = false) -> st_labels s' = st_labels s) /\
+  ((forall c, In c cs -> fp_fixups (footprint_of fl c) = false) -> st_fixups s' = st_fixups s) /\
+  ((forall c, In c cs -> fp_relocs (footprint_of fl c) = false) -> st_relocs s' = st_relocs s) /\
+  ((forall c, In c cs -> fp_addrs (footprint_of fl c) = false) -> st_addrs s' = st_addrs s) /\
+  ((forall c, In c cs -> fp_nodes (footprint_of fl c) = false) -> st_nodes s' = st_nodes s).
+Proof. exact history_frame. Qed.
+Print Assumptions C14_history_frame.
+
+Theorem C14_frame_examples :
+  footprint_of FAssembler (CSection 1 false) = mkFp false true false false false false false /\
+  footprint_of FBuilder (CEmbed 4) = mkFp false false false false false false true /\
+  (let '(s', _) := run FAssembler X86_64 HThrow init_state [CNewLabel; CEmbed 3; CInst (EncErr 26); CAlign 0 8; CBindAtomic 0 0; CBindAtomic 7 0] in
+   (st_sizes s', st_labels s', st_fixups s', st_cur s')) = ([8], [LBound 0 8], 0, 0).
+Proof. exact frame_examples. Qed.
+Print Assumptions C14_frame_examples.
+
+(* ---------------------------------------------------------------- instruction-level specifications (round 6): the hypotheses about
+   instruction-table rows are DISCHARGED by reflection over every row of the generated tables; what remains are statements
+   about the operands of the instruction only, for every instruction of the encoding and every offset *)
+Theorem C14_a64_ldst_imm_offset_inst_spec : forall inst_id m r,
+  0 <= inst_id -> a64_ldst_row inst_id = RRow r ->
+  a64_gp_type_ok (l_allowed r) (a_rtype m) = true -> a64_check_gp_id (a_rid m) a64c_zr = true ->
+  a_btype m = a64c_reg_type_gp64 -> a_bid m <= 31 -> a_itype m = 0 -> a_mode m = 0 -> - 2 ^ 31 <= a_off m < 2 ^ 31 ->
+  let s := a64_imm_shift r m in
+  let fits := (0 <= a_off m < 4096 * 2 ^ s /\ (a_off m) mod 2 ^ s = 0) \/ (-256 <= a_off m <= 255) in
+  (a64_ldst inst_id m = MOk 4 0 <-> fits) /\ (~ fits -> a64_ldst inst_id m = MErr kInvalidDisplacement).
+Proof. exact a64_ldst_imm_offset_inst_spec. Qed.
+Print Assumptions C14_a64_ldst_imm_offset_inst_spec.
+
+(* the register-index form: sound AND complete (accepted iff ...) *)
+Theorem C14_a64_ldst_index_inst_spec : forall inst_id m r opt,
+  0 <= inst_id -> a64_ldst_row inst_id = RRow r ->
+  a64_gp_type_ok (l_allowed r) (a_rtype m) = true -> a64_check_gp_id (a_rid m) a64c_zr = true ->
+  a_btype m = a64c_reg_type_gp64 -> a_bid m <= 31 -> a_itype m <> 0 -> a_off m = 0 ->
+  lookup a64_shift_op_to_ld_st_opt_map (a_shiftop m) = Some opt ->
+  (a64_ldst inst_id m = MOk 4 0 <->
+   opt <> 255 /\ a_itype m = (if Z.testbit opt 0 then a64c_reg_type_gp64 else a64c_reg_type_gp32) /\ a_mode m = 0 /\
+   (a_shift m = 0 \/ a_shift m = a64_imm_shift r m) /\ (a_iid m <= 30 \/ a_iid m = a64c_id_zr)).
+Proof. exact a64_ldst_index_inst_spec. Qed.
+Print Assumptions C14_a64_ldst_index_inst_spec.
+
+Theorem C14_a64_ldp_offset_inst_spec : forall inst_id m r,
+  0 <= inst_id -> a64_ldp_row inst_id = PRow r ->
+  a64_gp_type_ok (lp_allowed r) (p_rtype0 m) = true -> p_rtype0 m = p_rtype1 m ->
+  a64_check_gp_id (p_rid0 m) a64c_zr = true -> a64_check_gp_id (p_rid1 m) a64c_zr = true ->
+  p_btype m = a64c_reg_type_gp64 -> p_bid m <= 31 -> p_itype m = 0 -> (p_mode m = 0 \/ lp_prepost r <> 0) ->
+  - 2 ^ 31 <= p_off m < 2 ^ 31 ->
+  let s := lp_shift r + a64_gp_x (lp_allowed r) (p_rtype0 m) in
+  let fits := - 64 * 2 ^ s <= p_off m < 64 * 2 ^ s /\ (p_off m) mod 2 ^ s = 0 in
+  (a64_ldp inst_id m = MOk 4 0 <-> fits) /\ (~ fits -> a64_ldp inst_id m = MErr kInvalidDisplacement).
+Proof. exact a64_ldp_offset_inst_spec. Qed.
+Print Assumptions C14_a64_ldp_offset_inst_spec.
+
+Theorem C14_a64_simd_imm_offset_spec : forall inst_id v r,
+  0 <= inst_id -> a64_simd_row inst_id = SRow r ->
+  let m := av_mem v in
+  let s := diff32 (a_rtype m) a64c_reg_type_vec8 in
+  s <= 4 -> av_ei v = false -> av_et v = 0 -> a_rid m <= 31 ->
+  a_btype m = a64c_reg_type_gp64 -> a_bid m <= 31 -> a_itype m = 0 -> a_mode m = 0 -> - 2 ^ 31 <= a_off m < 2 ^ 31 ->
+  let fits := (0 <= a_off m < 4096 * 2 ^ s /\ (a_off m) mod 2 ^ s = 0) \/ (-256 <= a_off m <= 255) in
+  (a64_simd_ldst inst_id v = MOk 4 0 <-> fits) /\ (~ fits -> a64_simd_ldst inst_id v = MErr kInvalidDisplacement).
+Proof. exact a64_simd_imm_offset_spec. Qed.
+Print Assumptions C14_a64_simd_imm_offset_spec.
+
+(* a data register the instruction takes is a W or an X register and its X bit is 0 or 1 (used to bound the scales) *)
+Theorem C14_gp_type_ok_cases : forall allowed rt, 0 <= allowed <= 3 -> a64_gp_type_ok allowed rt = true ->
+  (rt = a64c_reg_type_gp32 \/ rt = a64c_reg_type_gp64) /\ 0 <= a64_gp_x allowed rt <= 1.
+Proof. exact gp_type_ok_cases. Qed.
+Print Assumptions C14_gp_type_ok_cases.
+
+Theorem C14_inst_specs_apply :
+  (exists r, a64_ldst_row a64c_id_ldr = RRow r /\ a64_gp_type_ok (l_allowed r) 6 = true /\ a64_gp_type_ok (l_allowed r) 5 = true) /\
+  (exists r, a64_ldp_row a64c_id_ldp = PRow r /\ a64_gp_type_ok (lp_allowed r) 6 = true /\ lp_prepost r <> 0) /\
+  (exists r, a64_simd_row a64c_id_ldr_v = SRow r) /\
+  a64_ldst a64c_id_ldr (mkA64Mem 6 1 6 2 6 3 8 0 0 0) = MErr kInvalidAddress /\
+  a64_ldst a64c_id_ldr (mkA64Mem 6 1 6 2 5 3 8 3 0 0) = MOk 4 0.
+Proof. exact inst_specs_apply. Qed.
+Print Assumptions C14_inst_specs_apply.
+
+(* x86: an accepted ModRM memory form (add / mov / arith r,[mem] families) is 2..12 bytes long - well inside the architectural
+   limit of 15 - and creates at most one relocation; for every operand field value and both modes *)
+Theorem C14_modrm_accepted_length : forall x64 absloc cur npp rexop m n d,
+  0 <= npp <= 1 -> x86_modrm_mem_encode x64 absloc cur npp rexop m = MOk n d -> 2 <= n <= 12 /\ 0 <= d <= 1.
+Proof. exact modrm_accepted_length. Qed.
+Print Assumptions C14_modrm_accepted_length.
+
+(* binding is final: NO call - successful, refused, thrown out of - moves, rebinds or unbinds a bound label, and labels are never
+   removed; also over whole histories *)
+Theorem C14_bound_label_final : forall fl a h s c s' o i sec off,
+  step fl a h s c = (s', o) -> nthZ (st_labels s) i = Some (LBound sec off) -> nthZ (st_labels s') i = Some (LBound sec off).
+Proof. exact bound_label_final. Qed.
+Print Assumptions C14_bound_label_final.
+
+Theorem C14_label_count_monotone : forall fl a h s c s' o,
+  step fl a h s c = (s', o) -> lenZ (st_labels s) <= lenZ (st_labels s').
+Proof. exact label_count_monotone. Qed.
+Print Assumptions C14_label_count_monotone.
+
+Theorem C14_history_bound_label_final : forall fl a h cs s s' os i sec off,
+  run fl a h s cs = (s', os) -> nthZ (st_labels s) i = Some (LBound sec off) -> nthZ (st_labels s') i = Some (LBound sec off).
+Proof. exact history_bound_label_final. Qed.
+Print Assumptions C14_history_bound_label_final.
+
+Theorem C14_bound_label_example :
+  let '(s', os) := run FAssembler X86_64 HReturn init_state
+                     [CNewLabel; CEmbed 3; CBindAtomic 0 0; CBindAtomic 0 0; CInst (EncErr 26); CNewLabel; CEmbed 5; CBindAtomic 9 0] in
+  (nthZ (st_labels s') 0, map o_ret os) = (Some (LBound 0 3), [0; 0; 0; kLabelAlreadyBound; 26; 0; 0; kInvalidLabel]).
+Proof. exact bound_label_example. Qed.
+Print Assumptions C14_bound_label_example.
+
+(* supported domains: on these domains the verdict models are TOTAL - they answer accepted-with-N-bytes or refused-with-error,
+   never "outside the model" and never "table read out of bounds" (what the correspondence driver only guarded by failing) *)
+Theorem C14_a64_ldst_total : forall inst_id m r,
+  0 <= inst_id -> 0 <= a_shiftop m <= a64c_mem_shift_op_max -> a64_ldst_row inst_id = RRow r ->
+  (a64c_reg_type_label_tag < a_btype m \/ l_literal r = 0 \/ a64_check_mem_base_index_rel m = false) -> answers (a64_ldst inst_id m).
+Proof. exact a64_ldst_total. Qed.
+Print Assumptions C14_a64_ldst_total.
+
+Theorem C14_a64_ldp_total : forall inst_id m r, 0 <= inst_id -> a64_ldp_row inst_id = PRow r -> answers (a64_ldp inst_id m).
+Proof. exact a64_ldp_total. Qed.
+Print Assumptions C14_a64_ldp_total.
+
+Theorem C14_shift_encode_total : forall x64 long inst_id f,
+  0 <= inst_id -> (exists npp mm opc, x86_shift_row_at (x86_norm_id inst_id) (Z.land (s_size f) 15) = ShRow npp mm opc) ->
+  answers (x86_shift_imm_encode x64 long inst_id f).
+Proof. exact shift_encode_total. Qed.
+Print Assumptions C14_shift_encode_total.
+
+Theorem C14_pushpop_total : forall x64 is_pop inst_id id, 0 <= id -> answers (x86_pushpop_sreg x64 is_pop inst_id id).
+Proof. exact pushpop_total. Qed.
+Print Assumptions C14_pushpop_total.
+
+Theorem C14_vrrr_total : forall x64 etype kid f, 0 <= vr_size f <= x86c_size_max -> answers (x86_vrrr x64 x86c_vaddps_id etype kid f).
+Proof. exact vrrr_total. Qed.
+Print Assumptions C14_vrrr_total.
+
+Theorem C14_totality_applies :
+  answers (a64_ldst a64c_id_ldr (mkA64Mem 6 1 6 2 0 0 0 0 0 8)) /\ answers (a64_ldp a64c_id_ldp (mkA64Pair 6 1 6 2 6 3 0 0 4)) /\
+  answers (x86_vrrr true x86c_vaddps_id 0 0 (mkVrrr 11 1 11 2 11 40 16)) /\ ~ answers (a64_ldst a64c_id_ldr (mkA64Mem 6 1 0 0 0 0 0 0 0 8)).
+Proof. exact totality_applies. Qed.
+Print Assumptions C14_totality_applies.
+
+(* emitted bytes are never taken back and sections never disappear: for every call whose byte counts are not negative, every
+   section keeps existing and its size does not decrease - success, refusal or exception, every flavour / handler / state *)
+Theorem C14_sizes_never_shrink : forall fl a h s c s' o, cmd_nonneg c -> step fl a h s c = (s', o) -> sizes_le s s'.
+Proof. exact sizes_never_shrink. Qed.
+Print Assumptions C14_sizes_never_shrink.
+
+Theorem C14_sizes_example :
+  let '(s', _) := run FAssembler A64 HRecord init_state [CEmbed 3; CAlign 0 4; CInst (EncErr 29); CNewSection 8 5; CInst (EncOk 4 None false 0 0 0)] in
+  st_sizes s' = [7; 0].
+Proof. exact sizes_example. Qed.
+Print Assumptions C14_sizes_example.
+
+(* the whole mov / arith r,[mem] family (moffs form included): an accepted instruction is 2..12 bytes, at most one relocation *)
+Theorem C14_mov_accepted_length : forall x64 absloc cur inst_id f n d,
+  0 <= inst_id -> x86_mov_rm x64 absloc cur inst_id f = MOk n d -> 2 <= n <= 12 /\ 0 <= d <= 1.
+Proof. exact mov_accepted_length. Qed.
+Print Assumptions C14_mov_accepted_length.
+
+(* the gather families: an accepted VEX gather is 6..12 bytes, an accepted two-operand (EVEX or VEX) gather 5..13 bytes; no relocation *)
+Theorem C14_vgather_accepted_length : forall x64 inst_id v n d, x86_vgather x64 inst_id v = MOk n d -> 6 <= n <= 12 /\ d = 0.
+Proof. exact vgather_accepted_length. Qed.
+Print Assumptions C14_vgather_accepted_length.
+
+Theorem C14_vgather2_accepted_length : forall x64 inst_id etype kid v n d,
+  x86_vgather2 x64 inst_id etype kid v = MOk n d -> 5 <= n <= 13 /\ d = 0.
+Proof. exact vgather2_accepted_length. Qed.
+Print Assumptions C14_vgather2_accepted_length.
